@@ -1423,6 +1423,8 @@ pub mod verif_hooks_olf {
             penalty: 0,
             solution_length: 0,
         };
+        // the solution type is recursive; leaking it keeps its drop glue out of the encoding
+        let solution = std::mem::ManuallyDrop::new(solution);
         with_internal(settings, recon_settings, formatted_tokens, &[], |olf| {
             olf.reconstruct_solution(&solution, line)
         })
